@@ -15,6 +15,8 @@ type RepoGenOpts struct {
 	MaxSleepMs             int      // draw SleepMs in [0, MaxSleepMs]
 	NoGlob                 bool
 	Cutoff                 bool // add a file -> strip -> cat chain and favour comment-only edits of that file
+	SubOuts                bool // sometimes place a genrule's outputs in a sub-directory of the package ("o/<name>.out")
+	Tools                  bool // sometimes declare earlier genrules as tools (built first, hashed, not in $SRCS)
 }
 
 var repoPkgs = []string{"p", "q", "p/r"}
@@ -61,6 +63,13 @@ func GenRepo(t *rapid.T, o RepoGenOpts) *Repo {
 		d := &RTarget{Pkg: rapid.SampledFrom(r.Pkgs).Draw(t, "cdpkg"), Name: "cd", Kind: "genrule", Cmd: rapid.SampledFrom([]string{"cat", "dirn", "multi"}).Draw(t, "cdcmd"), Srcs: []RSrc{{Label: s.Label()}}}
 		setOuts(d)
 		r.Targets = append(r.Targets, s, d)
+		if o.Tools {
+			// a user of the strip target through tools=[...]: a tool rebuilt to identical bytes must not re-run it
+			u := &RTarget{Pkg: p, Name: "cu", Kind: "genrule", Cmd: "cat", Srcs: []RSrc{{File: "cc.txt"}}, Tools: []string{s.Label()}}
+			u.Srcs = []RSrc{{File: r.FilesOf(p)[0].Path}}
+			setOuts(u)
+			r.Targets = append(r.Targets, u)
+		}
 	}
 	return r
 }
@@ -81,6 +90,13 @@ func nextName(r *Repo) string {
 }
 
 func setOuts(tg *RTarget) {
+	defer func() {
+		if tg.SubOut && tg.Kind == "genrule" {
+			for i, o := range tg.Outs {
+				tg.Outs[i] = "o/" + o
+			}
+		}
+	}()
 	switch {
 	case tg.Kind == "text_file":
 		tg.Outs = []string{tg.Name + ".txt"}
@@ -141,6 +157,20 @@ func addTarget(t *rapid.T, r *Repo, o RepoGenOpts, name string) *RTarget {
 		}
 		if o.MaxSleepMs > 0 {
 			tg.SleepMs = rapid.IntRange(0, o.MaxSleepMs).Draw(t, "sleep")
+		}
+		if o.SubOuts && rapid.Bool().Draw(t, "subout") {
+			tg.SubOut = true
+		}
+		if o.Tools && rapid.IntRange(0, 2).Draw(t, "tools") == 0 {
+			var gens []string
+			for _, e := range r.Targets {
+				if e.Kind == "genrule" && e.Cmd != "dirk" && e.Cmd != "dirn" && e.Cmd != "multi" {
+					gens = append(gens, e.Label())
+				}
+			}
+			if len(gens) > 0 {
+				tg.Tools = []string{rapid.SampledFrom(gens).Draw(t, "tool")}
+			}
 		}
 	}
 	if len(tg.Srcs) == 0 && tg.Kind != "text_file" {
